@@ -76,6 +76,77 @@ def unresolved(src: bytes | str):
     return frozenset(out)
 
 
+def used_before_bound(src: bytes | str):
+    """Names that module-level code loads BEFORE their first module-level binding (import, assignment, def, class ...), in
+    statement order: at that use the name resolves to nothing when the module runs, although `unresolved` (which does not model
+    order) counts it as bound.  Code inside function / lambda bodies runs later and is not looked at.  -> frozenset (empty when the
+    source does not parse)."""
+    try:
+        with warnings.catch_warnings():
+            warnings.simplefilter("ignore")
+            if isinstance(src, bytes):
+                import io
+                import tokenize
+
+                enc, _ = tokenize.detect_encoding(io.BytesIO(src).readline)
+                src = src.decode(enc).lstrip("\ufeff")
+            tree = ast.parse(src)
+    except (SyntaxError, ValueError, UnicodeDecodeError, LookupError, RecursionError):
+        return frozenset()
+    bound, early = set(), set()
+
+    def loads(node):
+        """Name loads evaluated when the statement runs (not the bodies of nested functions, lambdas, classes' methods)."""
+        stack = [node]
+        while stack:
+            n = stack.pop()
+            if isinstance(n, (ast.FunctionDef, ast.AsyncFunctionDef)):
+                stack += list(n.decorator_list) + [d for d in n.args.defaults + n.args.kw_defaults if d is not None]
+                continue
+            if isinstance(n, ast.Lambda):
+                continue
+            if isinstance(n, ast.Name) and isinstance(n.ctx, ast.Load):
+                yield n.id
+            stack += list(ast.iter_child_nodes(n))
+
+    def binds(st):
+        if isinstance(st, (ast.Import, ast.ImportFrom)):
+            for a in st.names:
+                yield (a.asname or a.name).split(".")[0]
+        elif isinstance(st, (ast.FunctionDef, ast.AsyncFunctionDef, ast.ClassDef)):
+            yield st.name
+        else:
+            for n in ast.walk(st):
+                if isinstance(n, ast.Name) and isinstance(n.ctx, (ast.Store, ast.Del)):
+                    yield n.id
+
+    def run(body):
+        for st in body:
+            if isinstance(st, (ast.If, ast.Try, ast.With, ast.AsyncWith, ast.For, ast.AsyncFor, ast.While)):
+                for field in ("test", "iter", "items"):
+                    v = getattr(st, field, None)
+                    for x in (v if isinstance(v, list) else [v] if v is not None else []):
+                        for name in loads(x):
+                            if name not in bound:
+                                early.add(name)
+                for n in ([st.target] if hasattr(st, "target") else []) + [i.optional_vars for i in getattr(st, "items", []) if i.optional_vars is not None]:
+                    bound.update(b for b in binds(ast.Expr(n)) )
+                for field in ("body", "orelse", "finalbody"):
+                    run(getattr(st, field, []) or [])
+                for h in getattr(st, "handlers", []):
+                    if h.name:
+                        bound.add(h.name)
+                    run(h.body)
+                continue
+            for name in loads(st):
+                if name not in bound:
+                    early.add(name)
+            bound.update(binds(st))
+
+    run(tree.body)
+    return frozenset(n for n in early if n in bound and n not in _BUILTINS)
+
+
 _TABLE = [
     ("x = 1\nprint(x)\n", set()),
     ("print(y)\n", {"y"}),
@@ -131,4 +202,7 @@ def selftest():
     # bytes path: BOM + coding cookie
     assert unresolved(b"\xef\xbb\xbfx = 1\nprint(x, y)\n") == frozenset({"y"})
     assert unresolved("# -*- coding: latin-1 -*-\nx = '\xe9'\nprint(x)\n".encode("latin-1")) == frozenset()
-    return f"{len(_TABLE)} table rows + 2 encodings"
+    assert used_before_bound("random.random()\nimport random\nrandom.random()\n") == frozenset({"random"})
+    assert used_before_bound("import random\nrandom.random()\ndef f():\n    return later\nlater = 1\n") == frozenset()
+    assert used_before_bound("if x:\n    pass\nx = 1\nprint(y)\n") == frozenset({"x"})
+    return f"{len(_TABLE)} table rows + 2 encodings + 3 order rows"
